@@ -12,6 +12,10 @@ class Ret(Exception):
         self.v = v
 
 
+class Brk(Exception):
+    pass
+
+
 class PieceEval:
     def __init__(self, func, args, members=None, stubs=None, prog=None, depth=0):
         self.stubs = stubs or {}
@@ -108,7 +112,42 @@ class PieceEval:
                 else:
                     sub.env[prm['id']] = evalx.wrap(self.ev(ae), prm['t'].replace('&', '').strip())
             sub.run()
-        elif k in ('for', 'while', 'do', 'forrange', 'switch', 'try'):
+        elif k == 'switch':
+            # a switch over a value is a piecewise definition as well: run from the matching label
+            # (or default) with fall-through until break
+            val = self.ev(s['c'])
+            body = s['b']['s'] if isinstance(s.get('b'), dict) and s['b'].get('k') == 'block' else [s.get('b')]
+            start = None
+            dflt = None
+
+            def labels(x):
+                out = []
+                while isinstance(x, dict) and x.get('k') in ('case', 'default'):
+                    out.append(x)
+                    x = x.get('s')
+                return out, x
+            for i, x in enumerate(body):
+                labs, _ = labels(x)
+                for lab in labs:
+                    if lab['k'] == 'default':
+                        dflt = i if dflt is None else dflt
+                    else:
+                        lo = self.ev(lab['v'])
+                        hi = self.ev(lab['v2']) if lab.get('v2') is not None else lo
+                        if lo <= val <= hi and start is None:
+                            start = i
+            if start is None:
+                start = dflt
+            if start is not None:
+                try:
+                    for x in body[start:]:
+                        _, inner = labels(x)
+                        self.stmt(inner)
+                except Brk:
+                    pass
+        elif k == 'break':
+            raise Brk()
+        elif k in ('for', 'while', 'do', 'forrange', 'try'):
             raise evalx.NotEvaluable('not a loop-free definition: ' + k)
         else:
             raise evalx.NotEvaluable('statement ' + str(k))
